@@ -155,7 +155,14 @@ impl Scenario for C08 {
                     src = gen_long_zero_source(rng);
                 }
                 spec.aux = vec![k as u64];
-                spec.seed = Some(if rng.chance(1, 2) { SeedSpec::FromRng(src) } else { SeedSpec::TryFromRng(src) });
+                let mut src = src;
+                let fallible = rng.chance(1, 2);
+                if fallible && src.zero_run == 0 && rng.chance(1, 3) {
+                    // the source fails on one of the (re)draws: whatever comes back, it must not be
+                    // a generator in the all-zero state
+                    src.fault = Some(crate::seams::source::SourceFault { call: rng.range(1, k as u64 + 2) as u32, torn: rng.below(n as u64 + 1) as u32, token: rng.u64() });
+                }
+                spec.seed = Some(if fallible { SeedSpec::TryFromRng(src) } else { SeedSpec::FromRng(src) });
             }
             _ => {
                 spec.variant = "pair".into();
@@ -239,7 +246,13 @@ impl Scenario for C08 {
             .unwrap_or(3000);
         st.sig(&[kind.id(), seed.route(), zero_blocks as u64, nz_pos]);
 
-        // (c) source accounting for from_rng / try_from_rng
+        // (c) source accounting for from_rng / try_from_rng (fault-free sources only: what a failing
+        // source must lead to is C09's subject; here only "never the all-zero state" is demanded)
+        let faulty = matches!(seed, SeedSpec::TryFromRng(s) if s.fault.is_some());
+        if faulty {
+            st.count("fault:source_error_during_redraw");
+            return RunEnd::Ok;
+        }
         if let Some(rep) = &rep {
             let expect_pos = if kind == Kind::XorShift { (zero_blocks + 1) * n } else { n };
             if zero_blocks > 0 {
